@@ -666,9 +666,9 @@ func runC06(w *World, r *Report) {
 	r.rule("read-lock-only", "read entry points hold the ledger lock in read mode while they touch the DAG", 3)
 	for _, name := range []string{"CalculateBalance", "ReadTransactionByHash", "ReadDAGTransactionsByAddress"} {
 		if f := w.fx(r, "accountant", "AccountingBook", name); f != nil {
-			for _, c := range f.calls(nGetVertex, dagM("AncestorsWalker"), dagM("GetLeaves")) {
+			for _, c := range f.calls(nGetVertex, dagM("AncestorsWalker"), dagM("GetLeaves"), cn("accountant", "*AccountingBook", "readAddressFundsFromStorage")) {
 				held := li.At(c)
-				r.check(held.Has(abMux, "R") && !held.Has(abMux, "W"), "read-lock-only", name+"/"+shortCallee(c), lineOf(w, c), "graph reads under AccountingBook.mux in read mode", "lockset "+held.String())
+				r.check(held.Has(abMux, "R") && !held.Has(abMux, "W"), "read-lock-only", name+"/"+shortCallee(c), lineOf(w, c), "graph and checkpoint reads happen under AccountingBook.mux in read mode (checkpoint and live DAG are one consistent snapshot)", "lockset "+held.String()+": a truncation can land between the checkpoint read and the walk")
 			}
 		}
 	}
